@@ -229,6 +229,14 @@ def mechanical(ctx, P, s, N, fn, graph, operand, extra):
                         arg_ty = peel(x["args"][0].get("ty", ""))
                 if arg_ty in ("usize", "u32", "u64", "u8", "u16"):
                     return True, "`_` followed by an unsigned integer is always an identifier"
+            m = re.fullmatch(r"format_ident\(F\[\{__private::IdentFragmentAdapter\((.+)\)\}\]\)", st)
+            if m:
+                # the text is the scrutinee of an enclosing match arm all of whose patterns are identifier literals
+                for c in GD.flatten(conds):
+                    if c[0] == "arm" and show(c[1]) == m.group(1):
+                        alts = [a.strip() for a in c[2].split("|")]
+                        if alts and all(re.fullmatch(r"'[A-Za-z_][A-Za-z0-9_]*'", a) for a in alts):
+                            return True, "the text is one of the identifier literals %s of the enclosing match arm" % c[2][:80]
             return None
         if s.callee == "Punctuated::insert":
             a0 = N.term(node["args"][0])
